@@ -409,7 +409,7 @@ func (ctx *Ctx) cmp(path []byte, cond op, right []byte) bool {
 			if v.val == nil && len(v.buf) > 0 {
 				ctx.Err = v.ins.Compare(&v.buf, inspector.Op(cond), byteconv.B2S(right), &ctx.BufB, ctx.bufS[1:]...)
 			} else if v.val == nil && v.cntrF {
-				ctx.Err = v.ins.Compare(v.cntr, inspector.Op(cond), byteconv.B2S(right), &ctx.BufB, ctx.bufS[1:]...)
+				ctx.Err = v.ins.Compare(&v.cntr, inspector.Op(cond), byteconv.B2S(right), &ctx.BufB, ctx.bufS[1:]...)
 			} else {
 				ctx.Err = v.ins.Compare(v.val, inspector.Op(cond), byteconv.B2S(right), &ctx.BufB, ctx.bufS[1:]...)
 			}
